@@ -17,7 +17,10 @@ EXPLANATION = (
     "this technique): reversibility over sequences of switches, route-table localisation, and everything that depends on the "
     "run-time state of leptos_router (histories, effects, navigation)."
 )
-ASSUMPTIONS = ["str::split('/') yields the path segments", "leptos_router delivers pathname, search and hash separately"]
+ASSUMPTIONS = ["str::split('/') yields the path segments", "leptos_router delivers pathname, search and hash separately",
+               "leptos_router 0.7.8 StaticSegment::test behaves as transcribed in rules/routeeval.py from its source (a prefix comparison that stops where the segment's text ends; "
+               "the first, documentation-based model was wrong and hid D28)",
+               "the inner routes of an I18nRoute match a remaining path by comparing its `/`-separated segments with the route's segments one by one (params match any segment)"]
 
 F = "leptos_i18n_router/src/routing.rs"
 PATTERN_APIS = re.compile(r"^core::str::<impl str>::(starts_with|ends_with|contains|find|rfind|strip_prefix|strip_suffix|trim_start_matches|trim_end_matches|trim_matches|split_once|rsplit_once|matches|match_indices|split|splitn)$")
